@@ -1,5 +1,6 @@
 #!/bin/bash
-# tools/fuzz.sh <ID> <runs-per-target> [seed]: coverage-guided campaign (libFuzzer) over every fuzz target of
+# tools/fuzz.sh <ID> <runs-per-target> [seed]: coverage-guided campaign (libFuzzer; at most VERIF_FUZZ_SECS=600 s per target,
+# a time budget that runs out ends the campaign without a verdict change) over every fuzz target of
 # property <ID>, all targets in parallel, fresh corpus directories outside /verif, rebuilt from /repo's current tree.
 # exit 0 nothing found / 1 VIOLATION (replay re-validated through ./check --replay) / 2 harness problem
 ID=$(echo "$1" | tr a-z A-Z); RUNS="${2:-200000}"; SEED="${3:-${VERIF_SEED:-0}}"
@@ -21,7 +22,7 @@ for t in $targets; do
   for i in 1 2 3 4; do python3 -c "
 import random,sys
 r=random.Random($SEED*1000+$i+hash('$t')%1000); sys.stdout.buffer.write(bytes(r.randrange(256) for _ in range(64*$i*$i)))" > "$WORK/$t/corpus/seed$i"; done
-  ( cd "$WORK/$t" && "$BIN/$t" corpus -runs="$RUNS" -seed="$SEED" -len_control=0 -max_len=1024 -timeout=30 -artifact_prefix="$WORK/$t/art/" > out.txt 2>&1; echo $? > rc ) &
+  ( cd "$WORK/$t" && "$BIN/$t" corpus -runs="$RUNS" -max_total_time="${VERIF_FUZZ_SECS:-600}" -seed="$SEED" -len_control=0 -max_len=1024 -timeout=30 -artifact_prefix="$WORK/$t/art/" > out.txt 2>&1; echo $? > rc ) &
   pids="$pids $!"
 done
 wait $pids
